@@ -775,6 +775,12 @@ class Interp:
             raise AnalysisError(f"attribute {attr} of exception value")
         if obj is None:
             raise Raised("AttributeError")
+        if isinstance(obj, ast.AST):
+            # a real syntax-tree node built by the rule (pure data): plain field access
+            try:
+                return getattr(obj, attr)
+            except AttributeError:
+                raise Raised("AttributeError") from None
         # python-native value: expose a whitelisted method
         if isinstance(obj, (str, list, tuple, dict, set, frozenset, int, bool)):
             if not hasattr(obj, attr):
